@@ -51,6 +51,7 @@ fn main() {
         "C09" => main_for::<props::c09::C09>(rest),
         "C10" => main_for::<props::c10::C10>(rest),
         "C11" => main_for::<props::c11::C11>(rest),
+        "C12" => main_for::<props::c12::C12>(rest),
         "C15" => main_for::<props::c15::C15>(rest),
         "C16" => main_for::<props::c16::C16>(rest),
         "C18" => {
